@@ -205,4 +205,521 @@ theorem tallyLoop_ok_iff (B : Nat) (H : Int) (vals : List Validator) (es : List 
         · simp [hs]
 
 
+
+
+theorem signedPower_eq (vals : ValSet) (B : Nat) (H : Int) (c : Commit) :
+    signedPower vals B H c = zipTally B H vals c.precommits := rfl
+
+theorem zipTally_all_nil (B : Nat) (H : Int) (vals : List Validator) (es : List (Option Entry))
+    (h : ∀ e, some e ∉ es) : zipTally B H vals es = 0 := by
+  induction vals generalizing es with
+  | nil => exact zipTally_nil_left ..
+  | cons v vs ih =>
+    cases es with
+    | nil => exact zipTally_nil_right ..
+    | cons oe es =>
+      rw [zipTally_cons]
+      cases oe with
+      | none => simp [countsFor]; exact ih es (fun e he => h e (by simp [he]))
+      | some e => exact absurd (by simp) (h e)
+
+theorem firstNonNil_some_of_mem {es : List (Option Entry)} {e : Entry} (h : some e ∈ es) :
+    ∃ e', firstNonNil es = some e' := by
+  cases hf : firstNonNil es with
+  | some e' => exact ⟨e', rfl⟩
+  | none => exact absurd h (firstNonNil_none hf e)
+
+theorem verifyCommit_ok_iff_aux {vals : ValSet} (hv : Valid vals) (B : Nat) (H : Int) (c : Commit) :
+    verifyCommit vals B H c = .ok () ↔
+      WellFormed vals B H c ∧ 3 * signedPower vals B H c > 2 * sumPowers vals := by
+  have hT := totalVotingPower_ok hv
+  have hT0 := sumPowers_nonneg hv.pos
+  have hmax : sumPowers vals ≤ maxInt64 := by
+    have := hv.total; rw [maxTotal_eq] at this; unfold maxInt64; omega
+  rw [verifyCommit_ok_unfold, signedPower_eq]
+  constructor
+  · rintro ⟨hvb, hlen, hH, hB, t, total, htl, htot, hgt⟩
+    rw [hT] at htot
+    cases htot
+    rw [gt_twoThirds_iff hT0 hv.total] at hgt
+    rcases (validateBasic_ok_iff c).1 hvb with ⟨h0, hnil⟩ | ⟨h0, hne, hall⟩
+    · -- genesis shape: no slots, so nothing is tallied
+      rw [hnil] at htl
+      simp [tallyLoop] at htl
+      omega
+    · have hkind : ∀ e, some e ∈ c.precommits → e.type = precommitType ∧ e.height = H :=
+        fun e he => ⟨(hall e he).1, by rw [hH]; exact (hall e he).2.1⟩
+      have := (tallyLoop_ok_iff B H vals c.precommits 0 t hlen.symm hv.pos (by omega) (by omega) hkind).1 htl
+      refine ⟨⟨h0, hlen.symm, hB.symm, hkind, ?_, this.1⟩, by rw [this.2] at hgt; omega⟩
+      intro e e' he he'
+      rw [(hall e he).2.2, (hall e' he').2.2]
+  · rintro ⟨wf, hgt⟩
+    -- some entry is non-nil, else nothing is tallied
+    have hex : ∃ e, firstNonNil c.precommits = some e := by
+      cases hf : firstNonNil c.precommits with
+      | some e => exact ⟨e, rfl⟩
+      | none =>
+        rw [zipTally_all_nil B H vals c.precommits (firstNonNil_none hf)] at hgt
+        omega
+    obtain ⟨e0, he0⟩ := hex
+    have hmem0 := firstNonNil_mem he0
+    have hH : c.height = H := by
+      unfold Commit.height; rw [he0]; exact (wf.kind e0 hmem0).2
+    have hR : c.round = e0.round := by
+      unfold Commit.round; rw [he0]
+    have hne : c.precommits ≠ [] := by
+      intro h; rw [h] at hmem0; simp at hmem0
+    have hvb : validateBasic c = .ok () := by
+      rw [validateBasic_ok_iff]
+      right
+      refine ⟨wf.notNil, hne, fun e he => ⟨(wf.kind e he).1, ?_, ?_⟩⟩
+      · rw [hH]; exact (wf.kind e he).2
+      · rw [hR]; exact wf.oneRound e e0 he hmem0
+    refine ⟨hvb, wf.size.symm, hH.symm, wf.block.symm, zipTally B H vals c.precommits, sumPowers vals, ?_, hT, ?_⟩
+    · rw [tallyLoop_ok_iff B H vals c.precommits 0 _ wf.size hv.pos (by omega) (by omega) wf.kind]
+      exact ⟨wf.sigs, by omega⟩
+    · rw [gt_twoThirds_iff hT0 hv.total]; omega
+
+
+/-! ### GetByAddress (sort.Search) -/
+
+theorem sortedAddrs_pairwise {vals : List Validator} (h : sortedAddrs vals = true) :
+    vals.Pairwise (fun a b => a.addr < b.addr) := by
+  induction vals with
+  | nil => simp
+  | cons a l ih =>
+    cases l with
+    | nil => simp
+    | cons b rest =>
+      simp only [sortedAddrs, Bool.and_eq_true, decide_eq_true_eq] at h
+      have ih' := ih h.2
+      rw [List.pairwise_cons] at ih' ⊢
+      refine ⟨?_, List.pairwise_cons.2 ⟨ih'.1, ih'.2⟩⟩
+      intro x hx
+      rcases List.mem_cons.1 hx with rfl | hx
+      · exact h.1
+      · exact Nat.lt_trans h.1 (ih'.1 x hx)
+
+theorem sortSearch_spec (f : Nat → Bool) (n : Nat)
+    (hmono : ∀ i j, i ≤ j → j < n → f i = true → f j = true) (lo hi : Nat)
+    (h1 : lo ≤ hi) (h2 : hi ≤ n) (hlo : ∀ k, k < lo → f k = false)
+    (hhi : ∀ k, hi ≤ k → k < n → f k = true) :
+    lo ≤ sortSearch f lo hi ∧ sortSearch f lo hi ≤ hi ∧
+      (∀ k, k < sortSearch f lo hi → f k = false) ∧
+      (∀ k, sortSearch f lo hi ≤ k → k < n → f k = true) := by
+  fun_induction sortSearch f lo hi with
+  | case1 i j hij m hfm ih =>
+    have hm : i ≤ m ∧ m < j := by show i ≤ (i + j) / 2 ∧ (i + j) / 2 < j; omega
+    obtain ⟨a, b, c, d⟩ := ih (by omega) h2 (by
+      intro k hk
+      cases hfk : f k with
+      | false => rfl
+      | true =>
+        have := hmono k m (by omega) (by omega) hfk
+        simp [this] at hfm) hhi
+    exact ⟨by omega, b, c, d⟩
+  | case2 i j hij m hfm ih =>
+    have hm : i ≤ m ∧ m < j := by show i ≤ (i + j) / 2 ∧ (i + j) / 2 < j; omega
+    have hfm' : f m = true := by simpa using hfm
+    obtain ⟨a, b, c, d⟩ := ih (by omega) (by omega) hlo (by
+      intro k hk hkn
+      exact hmono m k hk hkn hfm')
+    exact ⟨a, by omega, c, d⟩
+  | case3 i j hij =>
+    have : i = j := by omega
+    subst this
+    exact ⟨Nat.le_refl _, Nat.le_refl _, hlo, hhi⟩
+
+
+/-- the predicate `GetByAddress` hands to `sort.Search` -/
+def searchPred (vals : ValSet) (a : Nat) (i : Nat) : Bool :=
+  match vals[i]? with
+  | some v => decide (a ≤ v.addr)
+  | none => true
+
+theorem getByAddress_def (vals : ValSet) (a : Nat) :
+    getByAddress vals a =
+      match vals[sortSearch (searchPred vals a) 0 vals.length]? with
+      | some v => if v.addr = a then some (sortSearch (searchPred vals a) 0 vals.length, v) else none
+      | none => none := rfl
+
+theorem getByAddress_some_iff {vals : ValSet} (hs : vals.Pairwise (fun a b => a.addr < b.addr))
+    (a i : Nat) (v : Validator) :
+    getByAddress vals a = some (i, v) ↔ vals[i]? = some v ∧ v.addr = a := by
+  have hget := List.pairwise_iff_getElem.1 hs
+  have hmono : ∀ i j, i ≤ j → j < vals.length → searchPred vals a i = true → searchPred vals a j = true := by
+    intro i j hij hj hi
+    have hi' : i < vals.length := by omega
+    simp only [searchPred, List.getElem?_eq_getElem hi', List.getElem?_eq_getElem hj, decide_eq_true_eq] at hi ⊢
+    rcases Nat.lt_or_eq_of_le hij with h | h
+    · have := hget i j hi' hj h; omega
+    · subst h; exact hi
+  obtain ⟨_, hr2, hr3, hr4⟩ := sortSearch_spec (searchPred vals a) vals.length hmono 0 vals.length
+    (Nat.zero_le _) (Nat.le_refl _) (by intro k hk; omega) (by intro k hk hk'; omega)
+  rw [getByAddress_def]
+  generalize sortSearch (searchPred vals a) 0 vals.length = r at *
+  constructor
+  · intro h
+    cases hv : vals[r]? with
+    | none => simp [hv] at h
+    | some w =>
+      simp only [hv] at h
+      by_cases hw : w.addr = a
+      · simp only [hw, if_true, Option.some.injEq, Prod.mk.injEq] at h
+        obtain ⟨rfl, rfl⟩ := h
+        exact ⟨hv, hw⟩
+      · simp [hw] at h
+  · rintro ⟨hv, ha⟩
+    have hi : i < vals.length := by
+      rcases List.getElem?_eq_some_iff.1 hv with ⟨h, _⟩; exact h
+    have hvi : vals[i] = v := by
+      rcases List.getElem?_eq_some_iff.1 hv with ⟨_, h⟩; exact h
+    -- r ≤ i, because the predicate holds at i
+    have hfi : searchPred vals a i = true := by
+      simp [searchPred, List.getElem?_eq_getElem hi, hvi, ha]
+    have hri : r ≤ i := by
+      apply Nat.le_of_not_lt
+      intro h
+      have := hr3 i h
+      rw [hfi] at this
+      cases this
+    have hr : r < vals.length := by omega
+    have hfr := hr4 r (Nat.le_refl _) hr
+    simp only [searchPred, List.getElem?_eq_getElem hr, decide_eq_true_eq] at hfr
+    have hreq : r = i := by
+      rcases Nat.lt_or_eq_of_le hri with h | h
+      · have := hget r i hr hi h
+        rw [hvi, ha] at this
+        omega
+      · exact h
+    subst hreq
+    simp [hv, ha]
+
+theorem getByAddress_none {vals : ValSet} (hs : vals.Pairwise (fun a b => a.addr < b.addr))
+    (a : Nat) (h : getByAddress vals a = none) : ∀ v ∈ vals, v.addr ≠ a := by
+  intro v hv ha
+  obtain ⟨i, hi⟩ := List.getElem?_of_mem hv
+  have := (getByAddress_some_iff hs a i v).2 ⟨hi, ha⟩
+  rw [h] at this
+  cases this
+
+
+
+
+/-! ### VerifyFutureCommit -/
+
+theorem sum_map_congr {l : List Validator} {F G : Validator → Int} (h : ∀ w ∈ l, F w = G w) :
+    (l.map F).sum = (l.map G).sum := by
+  rw [List.map_congr_left h]
+
+/-- splitting one validator out of a sum over a list with distinct addresses -/
+theorem sum_split {old : List Validator} (hnd : old.Pairwise (fun a b => a.addr < b.addr))
+    {v : Validator} (hv : v ∈ old) (F G : Validator → Int) (hG : G v = 0)
+    (hFG : ∀ w ∈ old, w.addr ≠ v.addr → F w = G w) :
+    (old.map F).sum = F v + (old.map G).sum := by
+  induction old with
+  | nil => simp at hv
+  | cons w ws ih =>
+    rw [List.pairwise_cons] at hnd
+    simp only [List.map_cons, List.sum_cons]
+    rcases List.mem_cons.1 hv with rfl | hv'
+    · have : (ws.map F).sum = (ws.map G).sum :=
+        sum_map_congr (fun u hu => hFG u (by simp [hu]) (by have := hnd.1 u hu; omega))
+      rw [this, hG]; omega
+    · have hne : w.addr ≠ v.addr := by have := hnd.1 v hv'; omega
+      rw [hFG w (by simp) hne, ih hnd.2 hv' (fun u hu => hFG u (by simp [hu]))]
+      omega
+
+def namesOK (old : ValSet) (seenA : List Nat) (es : List (Option Entry)) : Prop :=
+  ∀ v ∈ old, v.addr ∉ seenA → ∀ e, firstNaming v.addr es = some e → e.sigOKOld = true
+
+def tallyFrom (B : Nat) (H : Int) (old : ValSet) (seenA : List Nat) (es : List (Option Entry)) : Int :=
+  (old.map (fun v => if v.addr ∉ seenA ∧ oldCountsFor B H es v = true then v.power else 0)).sum
+
+def unseenPower (old : ValSet) (seenA : List Nat) : Int :=
+  (old.map (fun v => if v.addr ∈ seenA then 0 else v.power)).sum
+
+/-- index-`seen` of the code vs. the set of addresses already judged -/
+def SeenRel (old : ValSet) (seenI seenA : List Nat) : Prop :=
+  ∀ i v, old[i]? = some v → (i ∈ seenI ↔ v.addr ∈ seenA)
+
+theorem firstNaming_cons_ne {a : Nat} {e : Entry} {es : List (Option Entry)} (h : e.valAddr ≠ a) :
+    firstNaming a (some e :: es) = firstNaming a es := by
+  simp [firstNaming, h]
+
+theorem firstNaming_cons_eq {a : Nat} {e : Entry} {es : List (Option Entry)} (h : e.valAddr = a) :
+    firstNaming a (some e :: es) = some e := by
+  simp [firstNaming, h]
+
+theorem oldCountsFor_cons_ne {B : Nat} {H : Int} {e : Entry} {es : List (Option Entry)} {w : Validator}
+    (h : e.valAddr ≠ w.addr) : oldCountsFor B H (some e :: es) w = oldCountsFor B H es w := by
+  simp [oldCountsFor, firstNaming_cons_ne h]
+
+theorem tallyFrom_nil (B : Nat) (H : Int) (old : ValSet) (seenA : List Nat) :
+    tallyFrom B H old seenA [] = 0 := by
+  unfold tallyFrom
+  induction old with
+  | nil => simp
+  | cons a as ih => simp [oldCountsFor, firstNaming] at ih ⊢; exact ih
+
+theorem futureLoop_ok_iff {old : ValSet} (hv : Valid old) (B : Nat) (H r : Int)
+    (es : List (Option Entry))
+    (hshape : ∀ e, some e ∈ es → e.height = H ∧ e.round = r ∧ e.type = precommitType)
+    (seenI seenA : List Nat) (p x : Int) (hR : SeenRel old seenI seenA)
+    (hp : 0 ≤ p) (hb : p + unseenPower old seenA ≤ maxInt64) :
+    futureLoop old B H r es seenI p = .ok x ↔
+      namesOK old seenA es ∧ x = p + tallyFrom B H old seenA es := by
+  have hs := sortedAddrs_pairwise hv.sorted
+  induction es generalizing seenI seenA p with
+  | nil =>
+    rw [tallyFrom_nil]
+    simp [futureLoop, namesOK, firstNaming]
+    omega
+  | cons oe es ih =>
+    have hshape' : ∀ e, some e ∈ es → e.height = H ∧ e.round = r ∧ e.type = precommitType :=
+      fun e he => hshape e (by simp [he])
+    cases oe with
+    | none =>
+      simp only [futureLoop]
+      have ih' := ih hshape' seenI seenA p hR hp hb
+      simp only [ih']
+      have hN : namesOK old seenA (none :: es) ↔ namesOK old seenA es := Iff.rfl
+      have hT : tallyFrom B H old seenA (none :: es) = tallyFrom B H old seenA es := rfl
+      rw [hN, hT]
+    | some e =>
+      obtain ⟨h1, h2, h3⟩ := hshape e (by simp)
+      unfold futureLoop
+      simp only [h1, h2, h3, ne_eq, not_true_eq_false, if_false]
+      cases hg : getByAddress old e.valAddr with
+      | none =>
+        have hne := getByAddress_none hs e.valAddr hg
+        simp only
+        have ih' := ih hshape' seenI seenA p hR hp hb
+        simp only [ih']
+        have hN : namesOK old seenA (some e :: es) ↔ namesOK old seenA es := by
+          unfold namesOK
+          constructor
+          · intro h w hw hws e' he'
+            exact h w hw hws e' (by rw [firstNaming_cons_ne (fun hc => hne w hw hc.symm)]; exact he')
+          · intro h w hw hws e' he'
+            rw [firstNaming_cons_ne (fun hc => hne w hw hc.symm)] at he'
+            exact h w hw hws e' he'
+        have hT : tallyFrom B H old seenA (some e :: es) = tallyFrom B H old seenA es := by
+          unfold tallyFrom
+          apply sum_map_congr
+          intro w hw
+          rw [oldCountsFor_cons_ne (fun hc => hne w hw hc.symm)]
+        rw [hN, hT]
+      | some iv =>
+        obtain ⟨i, v⟩ := iv
+        obtain ⟨hiv, hva⟩ := (getByAddress_some_iff hs e.valAddr i v).1 hg
+        have hvm : v ∈ old := List.mem_of_getElem? hiv
+        have hvp := hv.pos v hvm
+        simp only
+        by_cases hseen : seenI.contains i = true
+        · -- double vote for an address already judged: skipped
+          have hsA : e.valAddr ∈ seenA := by
+            have := (hR i v hiv).1 (by simpa using hseen); rwa [hva] at this
+          simp only [hseen, if_true]
+          have ih' := ih hshape' seenI seenA p hR hp hb
+          simp only [ih']
+          have hN : namesOK old seenA (some e :: es) ↔ namesOK old seenA es := by
+            unfold namesOK
+            constructor
+            · intro h w hw hws e' he'
+              have : e.valAddr ≠ w.addr := fun hc => hws (hc ▸ hsA)
+              exact h w hw hws e' (by rw [firstNaming_cons_ne this]; exact he')
+            · intro h w hw hws e' he'
+              have : e.valAddr ≠ w.addr := fun hc => hws (hc ▸ hsA)
+              rw [firstNaming_cons_ne this] at he'
+              exact h w hw hws e' he'
+          have hT : tallyFrom B H old seenA (some e :: es) = tallyFrom B H old seenA es := by
+            unfold tallyFrom
+            apply sum_map_congr
+            intro w hw
+            by_cases hws : w.addr ∈ seenA
+            · simp [hws]
+            · have : e.valAddr ≠ w.addr := fun hc => hws (hc ▸ hsA)
+              rw [oldCountsFor_cons_ne this]
+          rw [hN, hT]
+        · have hsA : e.valAddr ∉ seenA := by
+            intro hc
+            have := (hR i v hiv).2 (by rwa [hva])
+            exact hseen (by simpa using this)
+          simp only [hseen, Bool.false_eq_true, if_false]
+          by_cases hsig : e.sigOKOld = true
+          · simp only [hsig, Bool.not_true, Bool.false_eq_true, if_false]
+            -- invariants for the recursive call
+            have hR' : SeenRel old (i :: seenI) (e.valAddr :: seenA) := by
+              intro j w hjw
+              have hjlt : j < old.length := (List.getElem?_eq_some_iff.1 hjw).1
+              have hilt : i < old.length := (List.getElem?_eq_some_iff.1 hiv).1
+              have hwj : old[j] = w := (List.getElem?_eq_some_iff.1 hjw).2
+              have hvi : old[i] = v := (List.getElem?_eq_some_iff.1 hiv).2
+              have hget := List.pairwise_iff_getElem.1 hs
+              simp only [List.mem_cons]
+              constructor
+              · rintro (rfl | h)
+                · left; rw [hiv] at hjw; cases hjw; exact hva
+                · right; exact (hR j w hjw).1 h
+              · rintro (h | h)
+                · left
+                  rcases Nat.lt_trichotomy j i with hlt | heq | hgt
+                  · have := hget j i hjlt hilt hlt; rw [hwj, hvi] at this; omega
+                  · exact heq
+                  · have := hget i j hilt hjlt hgt; rw [hwj, hvi] at this; omega
+                · right; exact (hR j w hjw).2 h
+            have hU : unseenPower old seenA = v.power + unseenPower old (e.valAddr :: seenA) := by
+              unfold unseenPower
+              have := sum_split hs hvm (fun w => if w.addr ∈ seenA then 0 else w.power)
+                (fun w => if w.addr ∈ e.valAddr :: seenA then 0 else w.power)
+                (by simp [hva])
+                (by intro w hw hne
+                    have : w.addr ≠ e.valAddr := by rw [← hva]; exact hne
+                    simp [this])
+              rw [this]
+              simp [hva, hsA]
+            have hUnn : 0 ≤ unseenPower old (e.valAddr :: seenA) := by
+              unfold unseenPower
+              have : ∀ (l : List Validator), (∀ w ∈ l, 0 < w.power) →
+                  0 ≤ (l.map (fun w => if w.addr ∈ e.valAddr :: seenA then 0 else w.power)).sum := by
+                intro l hl
+                induction l with
+                | nil => simp
+                | cons a as iha =>
+                  simp only [List.map_cons, List.sum_cons]
+                  have := hl a (by simp)
+                  have := iha (fun w hw => hl w (by simp [hw]))
+                  split <;> omega
+              exact this old hv.pos
+            have hN : namesOK old seenA (some e :: es) ↔ namesOK old (e.valAddr :: seenA) es := by
+              unfold namesOK
+              constructor
+              · intro h w hw hws e' he'
+                have hne : e.valAddr ≠ w.addr := fun hc => hws (by simp [hc])
+                have hws' : w.addr ∉ seenA := fun hc => hws (by simp [hc])
+                exact h w hw hws' e' (by rw [firstNaming_cons_ne hne]; exact he')
+              · intro h w hw hws e' he'
+                by_cases hwa : e.valAddr = w.addr
+                · rw [firstNaming_cons_eq hwa] at he'
+                  cases he'; exact hsig
+                · rw [firstNaming_cons_ne hwa] at he'
+                  exact h w hw (by simp [hws, Ne.symm hwa]) e' he'
+            have hT : tallyFrom B H old seenA (some e :: es) =
+                (if B = e.blockID then v.power else 0) + tallyFrom B H old (e.valAddr :: seenA) es := by
+              unfold tallyFrom
+              have := sum_split hs hvm
+                (fun w => if w.addr ∉ seenA ∧ oldCountsFor B H (some e :: es) w = true then w.power else 0)
+                (fun w => if w.addr ∉ e.valAddr :: seenA ∧ oldCountsFor B H es w = true then w.power else 0)
+                (by simp [hva])
+                (by intro w hw hne
+                    have hne' : e.valAddr ≠ w.addr := by rw [← hva]; exact Ne.symm hne
+                    rw [oldCountsFor_cons_ne hne']
+                    simp [Ne.symm hne'])
+              rw [this]
+              congr 1
+              have hB : (e.blockID = B) ↔ (B = e.blockID) := eq_comm
+              have hfn : firstNaming v.addr (some e :: es) = some e := firstNaming_cons_eq hva.symm
+              have hsA' : v.addr ∉ seenA := by rw [hva]; exact hsA
+              simp only [oldCountsFor, hfn]
+              simp [hsA', h1, h3, hsig, hB]
+            rw [hN, hT]
+            by_cases hB : B = e.blockID
+            · have hw : wrap64 (p + v.power) = p + v.power :=
+                wrap64_id (by unfold minInt64; omega) (by omega)
+              have ih' := ih hshape' (i :: seenI) (e.valAddr :: seenA) (p + v.power) hR' (by omega) (by omega)
+              rw [if_pos hB, hw]; simp only [ih']
+              simp only [if_pos hB]
+              constructor
+              · rintro ⟨a, b⟩; exact ⟨a, by omega⟩
+              · rintro ⟨a, b⟩; exact ⟨a, by omega⟩
+            · have ih' := ih hshape' (i :: seenI) (e.valAddr :: seenA) p hR' hp (by omega)
+              rw [if_neg hB]; simp only [ih']
+              simp only [if_neg hB]
+              constructor
+              · rintro ⟨a, b⟩; exact ⟨a, by omega⟩
+              · rintro ⟨a, b⟩; exact ⟨a, by omega⟩
+          · -- the first entry naming an old validator does not verify under its key
+            simp only [hsig, Bool.not_false, if_true]
+            constructor
+            · intro h; cases h
+            · rintro ⟨h, _⟩
+              have := h v hvm (by rw [hva]; exact hsA) e (firstNaming_cons_eq hva.symm)
+              exact absurd this hsig
+
+
+
+
+theorem verifyFutureCommit_ok_unfold (old new : ValSet) (B : Nat) (H : Int) (c : Commit) :
+    verifyFutureCommit old new B H c = .ok () ↔
+      verifyCommit new B H c = .ok () ∧
+      ∃ p total, futureLoop old B H c.round c.precommits [] 0 = .ok p ∧
+        totalVotingPower old = .ok total ∧ p > twoThirds total := by
+  unfold verifyFutureCommit
+  cases verifyCommit new B H c with
+  | error e => simp
+  | ok u =>
+    cases futureLoop old B H c.round c.precommits [] 0 with
+    | error e => simp
+    | ok p =>
+      cases totalVotingPower old with
+      | error e => simp
+      | ok total => simp
+
+theorem unseenPower_nil (old : ValSet) : unseenPower old [] = sumPowers old := by
+  simp [unseenPower, sumPowers]
+
+theorem sum_filter_map (l : List Validator) (q : Validator → Bool) :
+    ((l.filter q).map (·.power)).sum = (l.map (fun v => if q v = true then v.power else 0)).sum := by
+  induction l with
+  | nil => simp
+  | cons a as ih =>
+    by_cases h : q a = true
+    · simp [h, ih]
+    · simp [h, ih]
+
+theorem tallyFrom_nil_seen (B : Nat) (H : Int) (old : ValSet) (c : Commit) :
+    tallyFrom B H old [] c.precommits = oldSignedPower old B H c := by
+  unfold tallyFrom oldSignedPower
+  rw [sum_filter_map]
+  simp
+
+theorem namesOK_nil_seen (old : ValSet) (c : Commit) :
+    namesOK old [] c.precommits ↔ OldWellFormed old c := by
+  unfold namesOK OldWellFormed
+  simp
+
+theorem verifyFutureCommit_ok_iff_aux {old new : ValSet} (ho : Valid old) (hn : Valid new)
+    (B : Nat) (H : Int) (c : Commit) :
+    verifyFutureCommit old new B H c = .ok () ↔
+      (WellFormed new B H c ∧ 3 * signedPower new B H c > 2 * sumPowers new) ∧
+      OldWellFormed old c ∧ 3 * oldSignedPower old B H c > 2 * sumPowers old := by
+  have hT := totalVotingPower_ok ho
+  have hT0 := sumPowers_nonneg ho.pos
+  have hmax : sumPowers old ≤ maxInt64 := by
+    have := ho.total; rw [maxTotal_eq] at this; unfold maxInt64; omega
+  rw [verifyFutureCommit_ok_unfold, verifyCommit_ok_iff_aux hn]
+  constructor
+  all_goals
+    rintro ⟨⟨wf, hgt⟩, rest⟩
+    refine ⟨⟨wf, hgt⟩, ?_⟩
+    -- after the new-set check every non-nil entry already has the right height, round and type
+    have hshape : ∀ e, some e ∈ c.precommits → e.height = H ∧ e.round = c.round ∧ e.type = precommitType := by
+      intro e he
+      obtain ⟨e0, he0⟩ := firstNonNil_some_of_mem he
+      have hR : c.round = e0.round := by unfold Commit.round; rw [he0]
+      exact ⟨(wf.kind e he).2, by rw [hR]; exact wf.oneRound e e0 he (firstNonNil_mem he0), (wf.kind e he).1⟩
+    have hloop := fun x => futureLoop_ok_iff ho B H c.round c.precommits hshape [] [] 0 x
+      (by intro i v _; simp) (by omega) (by rw [unseenPower_nil]; omega)
+    simp only [namesOK_nil_seen, tallyFrom_nil_seen] at hloop
+  · obtain ⟨p, total, hl, htot, hgt'⟩ := rest
+    rw [hT] at htot; cases htot
+    rw [gt_twoThirds_iff hT0 ho.total] at hgt'
+    obtain ⟨hwf, hp⟩ := (hloop p).1 hl
+    exact ⟨hwf, by omega⟩
+  · obtain ⟨hwf, hgt'⟩ := rest
+    refine ⟨oldSignedPower old B H c, sumPowers old, (hloop _).2 ⟨hwf, by omega⟩, hT, ?_⟩
+    rw [gt_twoThirds_iff hT0 ho.total]; omega
+
+
 end GnoVerif.C36
